@@ -66,7 +66,7 @@ func main() {
 	for i := 0; i < nShort; i++ {
 		run(g.History(1 + rng.Intn(3)))
 	}
-	// bounded-exhaustive: every history of depth 1..3 over the 17-letter alphabet; depth 4 in thorough
+	// bounded-exhaustive: every history of depth 1..3 over the 19-letter alphabet; depth 4 in thorough
 	maxDepth := 3
 	if r.Thorough() {
 		maxDepth = 4
@@ -94,5 +94,10 @@ func main() {
 	for i := 0; i < nOff; i++ {
 		run(g.QuietAddressHistory())
 		r.Stat("class.quiet-address", 1)
+	}
+	// the DHCP name path: SetDHCPv4IPOffer / DHCPv4Update with names on hosts that are online and announced
+	for i := 0; i < 2*nOff; i++ {
+		run(g.DHCPExchangeHistory())
+		r.Stat("class.dhcp-exchange", 1)
 	}
 }
